@@ -86,3 +86,17 @@ Theorem emt_never_out_of_range_refuted_pre_fix :
   exists r, run w_kink w_cfg w_st0 emt_reset [w_seg] = EOk r /\ map r_frame (concat (snd r)) = [6].
 Proof. exact refuted_pre_fix_proof. Qed.
 Print Assumptions emt_never_out_of_range_refuted_pre_fix.
+
+(* The link to the correspondence check: on every pair of deliveries of the same samples the model's outputs pass
+   the observable checker C08_check (Spec.v) that bin/check applies to the implementation's outputs. *)
+Theorem emt_model_passes_checker :
+  forall (kink : list Z -> Z) (c : cfg) (st0 : stream) (segsA segsB : list segment),
+    cfg_ok c -> kink_ok kink -> 0 <= st_first st0 ->
+    segsA <> [] -> segsB <> [] ->
+    contiguous (st_endframe st0) segsA -> contiguous (st_endframe st0) segsB ->
+    seg_concat segsA = seg_concat segsB ->
+    exists ra rb,
+      run kink c st0 emt_reset segsA = EOk ra /\ run kink c st0 emt_reset segsB = EOk rb /\
+      C08_check c (st_data st0 ++ seg_concat segsA) (st_first st0) (ORecs (snd ra)) (ORecs (snd rb)) = true.
+Proof. exact emt_model_passes_checker_thm. Qed.
+Print Assumptions emt_model_passes_checker.
